@@ -322,6 +322,13 @@ def main():
     if ok_check and coq_records:
         failing, errors, nshards, coq_s = run_shards(pid, coq_records, f"Check_{pid}",
                                                      spec["case_type"], spec["check_fn"])
+        if errors and any("nconsistent assumptions" in e[1] or "bad version" in e[1] or "Cannot find" in e[1]
+                          for e in errors):
+            # another build touched the shared .vo files while the shards were compiling: rebuild, retry once
+            time.sleep(3)
+            coq_build(pid)
+            failing, errors, nshards, coq_s = run_shards(pid, coq_records, f"Check_{pid}",
+                                                         spec["case_type"], spec["check_fn"])
         if errors:
             log("shard errors:", errors[:2])
             print(f"INFRA-ERROR property={pid} {len(errors)} correspondence shard(s) did not evaluate")
@@ -357,7 +364,7 @@ def main():
             corr_fail.append(r)
 
     def size(r):
-        return r.get("size", len(r.get("coq", "")))
+        return r.get("size", len(r.get("coq") or ""))
 
     if oracle_fail:
         by_clause = {}
